@@ -90,6 +90,14 @@ Definition obs_same_set (a b : obs) : bool :=
   | _, _ => obs_eqb a b
   end.
 
+(* C02 projection: which rules are reported (as a multiset of Type names), whatever the Path *)
+Definition obs_same_types (a b : obs) : bool :=
+  match a, b with
+  | ObReport x, ObReport y =>
+      multiset_eqb (map (fun e => let '(_, t, _) := e in ([], t, true)) x) (map (fun e => let '(_, t, _) := e in ([], t, true)) y)
+  | _, _ => obs_eqb a b
+  end.
+
 (* ctx oracle of the driver: non-nil from the flip-th call on *)
 Definition flip_ctx (flip : option nat) (e : ctxerr) : nat -> option ctxerr :=
   fun k => match flip with
